@@ -18,7 +18,14 @@ import (
 // Op is one step of a history. Operands are symbolic (resolved in run against the live state), the zero value of every
 // exchange field is the honest choice, so a shrunk history reads as "honest flow + the deviations that matter".
 type Op struct {
-	Kind string `json:"op"` // authorize | login | callback | exchange | race (race_test.go)
+	Kind string `json:"op"` // authorize | login | callback | exchange | race (race_test.go) | reg
+
+	// reg: the registration of client Client changes between two requests of the history (the storage answers with the new
+	// registration from now on; authorization requests and codes that exist stay where they are). Whatever the statement says
+	// about "the client" at the token endpoint is judged against the registration in force when the code is redeemed.
+	Method string `json:"method,omitempty"` // "" unchanged | toggle (public -> the confidential method it had / client_secret_basic, confidential -> none) | none | client_secret_basic | client_secret_post | private_key_jwt (clients with keys) | original
+	App    string `json:"app,omitempty"`    // "" unchanged | web | native | user_agent
+	URIs   string `json:"uris,omitempty"`   // "" unchanged | replace (one new URI instead of the registered ones) | add (a new one in front) | restore
 
 	// authorize
 	Client   int      `json:"client,omitempty"`   // index into Clients (mod n)
@@ -137,6 +144,11 @@ func genClient(t *rapid.T, i int, kind string) vkit.ClientSpec {
 		} // else: holds no secret at all (as a tls_client_auth registration would)
 	}
 	lbl := fmt.Sprintf("cl%d-", i)
+	// the application type is a dimension of its own: a native / user-agent application may be registered with a secret or a key
+	// (and a web application without any); what the token endpoint demands of the caller follows from the auth method alone
+	if app := rapid.SampledFrom([]string{"", "", "", "web", "native", "user_agent"}).Draw(t, lbl+"apptype"); app != "" {
+		c.AppType = app
+	}
 	// some clients share a redirect URI on purpose
 	if rapid.IntRange(0, 3).Draw(t, lbl+"shared") > 0 {
 		c.RedirectURIs = append(c.RedirectURIs, sharedURI)
@@ -144,7 +156,7 @@ func genClient(t *rapid.T, i int, kind string) vkit.ClientSpec {
 	if rapid.IntRange(0, 2).Draw(t, lbl+"own") > 0 || len(c.RedirectURIs) == 0 {
 		c.RedirectURIs = append(c.RedirectURIs, "https://rp-"+id+".example.com/cb")
 	}
-	if kind == "native" && rapid.Bool().Draw(t, lbl+"custom") {
+	if kind == "native" && c.AppType == "native" && rapid.Bool().Draw(t, lbl+"custom") {
 		c.RedirectURIs = append(c.RedirectURIs, "com.example.app:/cb") // shared among native clients
 	}
 	if rapid.IntRange(0, 3).Draw(t, lbl+"second") == 0 {
@@ -351,6 +363,32 @@ func genExchange(t *rapid.T, nClients int, pk []int) Op {
 	return o
 }
 
+var appTypes = []string{"web", "native", "user_agent"}
+
+// genReg: one change of one client's registration; recent = the client of the latest authorization request (preferred: the
+// changes that matter are those that happen while a request / a code of the client is outstanding), -1: none yet.
+func genReg(t *rapid.T, nClients, recent int) Op {
+	o := Op{Kind: "reg"}
+	if recent >= 0 && rapid.IntRange(0, 3).Draw(t, "reg-recent") > 0 {
+		o.Client = recent
+	} else {
+		o.Client = rapid.IntRange(0, nClients-1).Draw(t, "reg-client")
+	}
+	methods := []string{"toggle", "toggle", "toggle", "toggle", "none", "none", "client_secret_basic", "client_secret_post", "private_key_jwt", "original"}
+	switch rapid.IntRange(0, 9).Draw(t, "reg-what") {
+	case 0, 1, 2, 3, 4, 5:
+		o.Method = rapid.SampledFrom(methods).Draw(t, "reg-method")
+	case 6:
+		o.App = rapid.SampledFrom(appTypes).Draw(t, "reg-app")
+	case 7, 8:
+		o.URIs = rapid.SampledFrom([]string{"replace", "replace", "add", "restore"}).Draw(t, "reg-uris")
+	default:
+		o.Method = rapid.SampledFrom(methods).Draw(t, "reg-method")
+		o.App = rapid.SampledFrom(appTypes).Draw(t, "reg-app")
+	}
+	return o
+}
+
 func genCase(t *rapid.T) Case {
 	c := genCase0(t)
 	// drawn last so that the rest of the case does not depend on it
@@ -396,21 +434,32 @@ func genCase0(t *rapid.T) Case {
 	pk := genClients(t, &c)
 	n := len(c.Clients)
 	steps := rapid.IntRange(3, vkit.Scale(14, 20)).Draw(t, "steps")
+	recent := -1 // the client of the authorization request generated last
 	for s := 0; s < steps && len(c.Ops) < 40; s++ {
 		step := "flow"
 		if s > 0 {
-			step = rapid.SampledFrom([]string{"exchange", "exchange", "exchange", "exchange", "exchange", "flow", "flow", "flow", "exchange", "exchange", "exchange", "exchange", "exchange", "authorize", "login", "callback", "callback"}).Draw(t, "step")
+			step = rapid.SampledFrom([]string{"exchange", "exchange", "exchange", "exchange", "exchange", "flow", "flow", "flow", "exchange", "exchange", "exchange", "exchange", "exchange", "authorize", "login", "callback", "callback", "reg", "reg", "flow-reg"}).Draw(t, "step")
 		}
 		switch step {
-		case "flow":
+		case "flow", "flow-reg":
 			cb := Op{Kind: "callback"}
 			user := rapid.IntRange(0, 2).Draw(t, "user")
 			if rapid.IntRange(0, 19).Draw(t, "cb-faulted") == 0 {
 				cb.Fault = genFault(t, callbackFaultMethods, 4)
 			}
-			c.Ops = append(c.Ops, genAuthorize(t, n, pk), Op{Kind: "login", User: user}, cb)
+			au := genAuthorize(t, n, pk)
+			recent = au.Client
+			c.Ops = append(c.Ops, au, Op{Kind: "login", User: user}, cb)
+			if step == "flow-reg" {
+				// the registration of a client changes while a code of it is outstanding
+				c.Ops = append(c.Ops, genReg(t, n, recent))
+			}
+		case "reg":
+			c.Ops = append(c.Ops, genReg(t, n, recent))
 		case "authorize":
-			c.Ops = append(c.Ops, genAuthorize(t, n, pk))
+			au := genAuthorize(t, n, pk)
+			recent = au.Client
+			c.Ops = append(c.Ops, au)
 		case "login":
 			c.Ops = append(c.Ops, Op{Kind: "login", Req: rapid.SampledFrom(backIdx).Draw(t, "req"), User: rapid.IntRange(0, 2).Draw(t, "user")})
 		case "callback":
@@ -437,6 +486,8 @@ type exec struct {
 	m       model
 	rs      vkit.ClientSpec
 	signKey *vkit.KeyInfo
+	orig    []vkit.ClientSpec // the registrations the case started with (e.c.Clients: the registrations in force now)
+	regs    int               // registration changes so far
 
 	okKeys, noKeys map[string]bool
 	faultKeys      map[string]bool
@@ -455,17 +506,21 @@ type exec struct {
 }
 
 func clientKind(c *vkit.ClientSpec) string {
+	app := ""
+	if c.AppType != "web" {
+		app = "(" + c.AppType + ")" // a confidential registration of an application that is not a web application
+	}
 	switch c.AuthMethod {
 	case "client_secret_basic":
-		return "basic"
+		return "basic" + app
 	case "client_secret_post":
-		return "post"
+		return "post" + app
 	case "private_key_jwt":
-		return "pkjwt"
+		return "pkjwt" + app
 	case "none":
 		return c.AppType + "-public"
 	}
-	return "oddmethod"
+	return "oddmethod" + app
 }
 
 // rightCred: what the honest holder of the client's credentials sends (a client of a method the OP does not implement: its
@@ -519,7 +574,7 @@ func (e *exec) back(k, n int) int { return n - 1 - (k % n) }
 
 func (e *exec) authorize(o Op) {
 	cl := &e.c.Clients[o.Client%len(e.c.Clients)]
-	rq := &mReq{client: o.Client % len(e.c.Clients), redirect: cl.RedirectURIs[o.URI%len(cl.RedirectURIs)],
+	rq := &mReq{client: o.Client % len(e.c.Clients), kindAtRequest: clientKind(cl), redirect: cl.RedirectURIs[o.URI%len(cl.RedirectURIs)],
 		verifier: verifierPool[o.Verifier%len(verifierPool)], scopes: append([]string{"openid"}, o.Scopes...), nonce: o.Nonce}
 	q := vkit.AuthParams(cl, rq.redirect, "code", strings.Join(rq.scopes, " "), o.State, o.Nonce)
 	switch o.PKCE {
@@ -605,6 +660,77 @@ func (e *exec) callback(o Op) {
 		e.res.Label("callback:no-code-unexpected")
 		e.trace = append(e.trace, "callback without code: "+show(resp))
 	}
+}
+
+// reg changes the registration of one client: in the model (e.c.Clients, what every later verdict is computed from) and in
+// the storage (which answers with the new registration from the next request on). Requests and codes stay where they are.
+func (e *exec) reg(o Op) {
+	ci := o.Client % len(e.c.Clients)
+	if ci < 0 {
+		ci = 0
+	}
+	cl := e.c.Clients[ci] // a copy
+	was := clientKind(&cl)
+	secretMethod := func(m string) bool { return m == "client_secret_basic" || m == "client_secret_post" }
+	switch o.Method {
+	case "toggle":
+		switch {
+		case !public(&cl):
+			cl.AuthMethod = "none"
+		case e.orig[ci].AuthMethod != "none":
+			cl.AuthMethod = e.orig[ci].AuthMethod
+		default:
+			cl.AuthMethod = "client_secret_basic"
+		}
+	case "none", "client_secret_basic", "client_secret_post":
+		cl.AuthMethod = o.Method
+	case "private_key_jwt":
+		if len(cl.Keys) > 0 {
+			cl.AuthMethod = o.Method
+		}
+	case "original":
+		cl.AuthMethod = e.orig[ci].AuthMethod
+	}
+	if secretMethod(cl.AuthMethod) && cl.Secret == "" {
+		cl.Secret = "secret-of-" + cl.ID // a client that becomes confidential is given a secret
+	}
+	for _, a := range appTypes {
+		if o.App == a {
+			cl.AppType = a
+		}
+	}
+	fresh := "https://new-" + cl.ID + ".example.com/cb"
+	switch o.URIs {
+	case "replace":
+		cl.RedirectURIs = []string{fresh}
+	case "add":
+		if !has(cl.RedirectURIs, fresh) {
+			cl.RedirectURIs = append([]string{fresh}, cl.RedirectURIs...)
+		}
+	case "restore":
+		cl.RedirectURIs = append([]string(nil), e.orig[ci].RedirectURIs...)
+	}
+	e.c.Clients[ci] = cl
+	cp := cl
+	e.st.Clients[cl.ID] = &cp // the store gets its own copy
+	e.regs++
+	now := clientKind(&cl)
+	e.res.Label("reg")
+	if now != was {
+		e.res.Label("reg:kind:" + was + "->" + now)
+		e.res.Label("reg:public:" + fmt.Sprint(strings.HasSuffix(was, "-public")) + "->" + fmt.Sprint(public(&cl)))
+	}
+	if o.URIs != "" {
+		e.res.Label("reg:uris:" + o.URIs)
+	}
+	outstanding := false
+	for _, mc := range e.m.codes {
+		outstanding = outstanding || (!mc.used && e.m.reqs[mc.req].client == ci)
+	}
+	if outstanding {
+		e.res.Label("reg:while-a-code-of-the-client-is-outstanding")
+	}
+	e.trace = append(e.trace, fmt.Sprintf("reg %s: %s -> %s uris=%v", cl.ID, was, now, cl.RedirectURIs))
 }
 
 // present builds the credential presentation and its wire description.
@@ -1003,7 +1129,11 @@ func (e *exec) noteAssertion(w wire) {
 }
 
 func (b *built) describe(i int) string {
-	return fmt.Sprintf("op %d: code of %s (%s, pkce=%s, redirect %s) presented by %s redirect=%q(missing=%v) verifier=%q", i, b.owner.ID, clientKind(b.owner),
+	kind := clientKind(b.owner)
+	if b.rq != nil && b.rq.kindAtRequest != kind {
+		kind += " now, " + b.rq.kindAtRequest + " when the request was made"
+	}
+	return fmt.Sprintf("op %d: code of %s (%s, pkce=%s, redirect %s) presented by %s redirect=%q(missing=%v) verifier=%q", i, b.owner.ID, kind,
 		methodOf(b.rq), b.reqRedirect, b.w, b.a.redirect, b.a.noRedirect, b.a.verifier)
 }
 
@@ -1078,6 +1208,20 @@ func (e *exec) exchange(i int, o Op) {
 	}
 	if vd.v != 0 {
 		e.asserted++
+	}
+	if rq != nil && rq.kindAtRequest != ownerKind {
+		// the code's client is registered differently now than when the request was made: judged as it is registered now
+		verdictName := map[int]string{1: "must-accept", 0: "grey", -1: "must-reject"}[vd.v]
+		e.res.Label("ex:registration-changed-since-request", "ex:registration-changed-since-request:"+verdictName,
+			fmt.Sprintf("ex:registration-changed:public=%v->%v:%s", strings.HasSuffix(rq.kindAtRequest, "-public"), public(owner), verdictName))
+		if vd.v == -1 {
+			for _, r := range vd.reasons {
+				e.res.Label("ex:registration-changed-since-request:must-reject:" + r)
+			}
+		}
+	}
+	if !public(as) && as.AppType != "web" {
+		e.res.Label("as:confidential-registration-of-a-" + as.AppType + "-application:pres=" + o.Pres)
 	}
 	switch vd.v {
 	case 1:
@@ -1285,7 +1429,9 @@ func run(c Case) (res *vkit.Result) {
 		res.Label("skip:malformed-case")
 		return res
 	}
-	e := &exec{c: c, res: res, okKeys: map[string]bool{}, noKeys: map[string]bool{}, faultKeys: map[string]bool{}, lastAsserter: -1, didAssert: map[int]bool{},
+	// the history may change registrations: the case itself is never touched
+	c.Clients = append([]vkit.ClientSpec(nil), c.Clients...)
+	e := &exec{c: c, res: res, orig: append([]vkit.ClientSpec(nil), c.Clients...), okKeys: map[string]bool{}, noKeys: map[string]bool{}, faultKeys: map[string]bool{}, lastAsserter: -1, didAssert: map[int]bool{},
 		gateJ0: -1, raceKeys: map[string]bool{}}
 	e.m.emptySecretOK = c.EmptySecretOK
 	e.rs = vkit.ClientSpec{ID: rsID, Secret: rsSecret, AppType: "web", AuthMethod: "client_secret_basic"}
@@ -1315,6 +1461,8 @@ func run(c Case) (res *vkit.Result) {
 			e.exchange(i, o)
 		case "race":
 			e.race(i, o)
+		case "reg":
+			e.reg(o)
 		}
 		if e.hung {
 			break
@@ -1348,6 +1496,13 @@ func run(c Case) (res *vkit.Result) {
 			kids[kidOf(&c.Clients[i])]++
 		}
 	}
+	for i := range e.orig {
+		cl := &e.orig[i]
+		res.Label("clients:" + cl.AppType + "/" + map[bool]string{true: "unimplemented-method", false: cl.AuthMethod}[oddMethod(cl)])
+	}
+	if e.regs > 0 {
+		res.Label("history:with-registration-changes")
+	}
 	for i := range c.Clients {
 		if cl := &c.Clients[i]; oddMethod(cl) {
 			res.Label("clients:odd-auth-method", fmt.Sprintf("clients:odd-auth-method:%q:secret=%v", cl.AuthMethod, cl.Secret != ""))
@@ -1371,8 +1526,8 @@ func run(c Case) (res *vkit.Result) {
 
 var prop = vkit.Prop[Case]{
 	ID: "C04",
-	Rule: "cases = router (provider | legacy) x static issuer (https://op.example.com in half of the cases | with a trailing slash | with a path | path and trailing slash | explicit port | two path segments; the routes stay) x storage secret comparison (diligent: a client without a secret never matches | plain string equality: a client that holds no secret matches an empty presented one, as example/server/storage does) x id-token alg x 3-5 registered clients (client_secret_basic, client_secret_post, private_key_jwt - half of them with a secret the storage also holds; every fourth secret with characters that the Basic scheme form-encodes (percent sequence, plus, space, colon, slash, ampersand); each with its own key, whose key id is either the client's own or one that several clients use for their different keys -, public native / user-agent, confidential clients whose registered token endpoint auth method is none of the four the OP implements: never set (empty) / client_secret_jwt / tls_client_auth / self_signed_tls_client_auth / CLIENT_SECRET_BASIC / basic / a made-up one, 5 of 6 with a secret; a redirect URI shared on purpose, some registered URIs with a query, an empty path, a trailing slash or a port; opaque or JWT access tokens) " +
-		"x history of 3-40 ops: authorize(client, registered uri, pkce none|plain|plain-without-method|S256, verifier from a pool of 4, scopes, nonce), login(req, user), callback(req), " +
+	Rule: "cases = router (provider | legacy) x static issuer (https://op.example.com in half of the cases | with a trailing slash | with a path | path and trailing slash | explicit port | two path segments; the routes stay) x storage secret comparison (diligent: a client without a secret never matches | plain string equality: a client that holds no secret matches an empty presented one, as example/server/storage does) x id-token alg x 3-5 registered clients (client_secret_basic, client_secret_post, private_key_jwt - half of them with a secret the storage also holds; every fourth secret with characters that the Basic scheme form-encodes (percent sequence, plus, space, colon, slash, ampersand); each with its own key, whose key id is either the client's own or one that several clients use for their different keys -, public native / user-agent, confidential clients whose registered token endpoint auth method is none of the four the OP implements: never set (empty) / client_secret_jwt / tls_client_auth / self_signed_tls_client_auth / CLIENT_SECRET_BASIC / basic / a made-up one, 5 of 6 with a secret; the application type (web / native / user_agent) drawn independently of the auth method for every client kind: a native or user-agent application registered with a secret or a key is confidential, a web application with method none is public; a redirect URI shared on purpose, some registered URIs with a query, an empty path, a trailing slash or a port; opaque or JWT access tokens) " +
+		"x history of 3-40 ops: reg(client - preferably the one of the latest authorization request, i.e. while a code of it is outstanding -, auth method toggled public <-> confidential / set to none / client_secret_basic / client_secret_post / private_key_jwt / the original one, application type, redirect URIs replaced / extended / restored: the storage answers with the new registration from the next request on, requests and codes stay; every verdict is computed from the registration in force when the code is presented: a client that is public then cannot redeem a code without challenge whatever it was when the code was issued, a client that is confidential then has to authenticate; a redemption whose redirect_uri equals the request's but is no longer registered is grey), authorize(client, registered uri, pkce none|plain|plain-without-method|S256, verifier from a pool of 4, scopes, nonce), login(req, user), callback(req), " +
 		"exchange(code incl. replays / mangled / garbage, as owner or another client, presentation right|wrong secret|nothing proved, for every client kind: client_id form value only / Basic header naming the client with an empty password / client_id plus an empty client_secret parameter (a confidential client - secret or private_key_jwt - named that way must never be served, whatever the storage makes of an empty secret; a public client identifies that way)|other method|assertion with unregistered key|assertion naming the client and its key id but signed with the registered key of another private_key_jwt client (preferably one with the same key id that authenticated earlier in the history)|none|stored secret of a private_key_jwt client via Basic / POST instead of an assertion, extra body client_id; " +
 		"near-miss credentials (every 8th exchange has nothing else wrong, others combine them with the deviations above): Assert = the assertion of a private_key_jwt client, signed with its own registered key, iss = the client, deviating in ONE respect: audience (the issuer string continued: host suffix .evil.net/ / word suffix / userinfo trick @evil.net/ / path extension that is no endpoint; a strict prefix of the issuer: last character / last path segment or host label dropped; trailing slash toggled; host or everything upper-cased; default port added or the issuer's port dropped; http; the token endpoint URL; the client's own id; no aud; empty list; three audiences none of which is the issuer; one string that is a near miss; and two accepted shapes: a list that contains the issuer among others, a single string), validity (expired, no exp; iat 10 min ahead / 2 h old / missing), subject (another client - the code's owner when the assertion is by somebody else -, a user, missing), client_assertion_type (saml2-bearer, missing, upper-cased), signature (alg none, HS256 keyed with the public key, signature of another payload); " +
 		"SecretForm = the right secret of a secret-holding client (also the stored secret of a private_key_jwt client, the secret of a client of an unimplemented method) with a trailing / leading space, truncated, extended, upper-cased, replaced by another client's secret, form-decoded once more, form-encoded once more, or sent in a Basic header that is not form-encoded; " +
